@@ -1001,7 +1001,7 @@ func main() {
 				extSearchItem(&sb, *repo, it, pc, emitConst, wrapName) // ext_transfer.go
 			case "forloop":
 				extTransferItem(&sb, *repo, it, pc, emitConst, wrapName) // ext_transfer.go
-			case "callarg", "localvar":
+			case "callarg", "localvar", "locked":
 				extMtItem(&sb, *repo, it, pc) // ext_mtproto.go
 			case "blockops":
 				extBlockOps(&sb, *repo, it) // ext_blockops.go
